@@ -577,6 +577,10 @@ def r14_11_zigzag_pair(ctx: Ctx) -> RuleResult:
         rr.fail(w.qual, "write_signed_count / read_signed_count are not a single varint write / a single return expression (not evaluated)", ctx.loc(w))
         return rr
     enc = inline_locals(w.node, wcalls[0].args[0])
+    if isinstance(enc, ast.Call):
+        from ..kit import inline_simple_call
+
+        enc = inline_simple_call(ctx.R, enc, w) or enc  # the encoder moved into a one-line helper
     dec = rrets[0]
     pw = w.value_params[0].arg
     # the reader's local holding the raw varint
